@@ -793,6 +793,64 @@ def scenario_undo_window(seed, falling=False):
         w.destroy()
 
 
+class ToolKilled(BaseException):
+    pass
+
+
+def run_compaction_tool(w, rowlen, limit, kill_after=None, kill_before_set_flush_count=False):
+    '''Run the REAL compaction tool - the function compact_history() of the script electrumx_compact_history, loaded from the
+    repository under test - on the world's database directory.  Only its collaborators are adapted: Env() gives the world's
+    environment, the row size is the scenario's, each batch uses the scenario's (small) limit instead of 8 MB, and the tool can
+    be killed after a number of batches or right before set_flush_count.  Returns (batches, completed).'''
+    import importlib.machinery
+    import importlib.util
+    import electrumx
+    path = os.path.join(os.path.dirname(os.path.dirname(os.path.abspath(electrumx.__file__))), 'electrumx_compact_history')
+    loader = importlib.machinery.SourceFileLoader('electrumx_compact_history_tool', path)
+    spec = importlib.util.spec_from_loader(loader.name, loader)
+    mod = importlib.util.module_from_spec(spec)
+    loader.exec_module(mod)
+    n = {'batches': 0}
+
+    def make_db(env):
+        db = DB(env)
+        w.db = db
+        orig_open = db.open_for_compacting
+
+        async def open_for_compacting():
+            state = await orig_open()
+            hist = db.history
+            hist.max_hist_row_entries = rowlen
+            real = hist._compact_history
+
+            def one_batch(_limit):
+                if kill_after is not None and n['batches'] >= kill_after:
+                    raise ToolKilled()
+                n['batches'] += 1
+                return real(limit)
+            hist._compact_history = one_batch
+            return state
+        db.open_for_compacting = open_for_compacting
+        if kill_before_set_flush_count:
+            def killed(_count):
+                raise ToolKilled()
+            db.set_flush_count = killed
+        return db
+    mod.Env = lambda: w.env
+    mod.DB = make_db
+    saved = os.environ.get('DAEMON_URL')
+    completed = True
+    try:
+        w.run(mod.compact_history(), timeout=100)
+    except ToolKilled:
+        completed = False
+    finally:
+        if saved is not None:
+            os.environ['DAEMON_URL'] = saved
+        w.close()
+    return n['batches'], completed
+
+
 def scenario_compaction(seed, force_mode=None, force_rowlen=None):
     '''C14: compaction in one go / with small batch limits / killed between batches / abandoned then indexing.'''
     rnd = random.Random(seed)
@@ -809,50 +867,36 @@ def scenario_compaction(seed, force_mode=None, force_rowlen=None):
         w.open()
         sched = [rnd.choice([0.1, 0.3, 0.9]) for _ in blocks]
         index_forward(w, blocks[:-2], rnd, sched=list(sched))
+        w.bp.state.first_sync = False           # the server had caught up (the tool refuses a database in its first sync)
         w.flush(True)
+        w.db.state.first_sync = False
+        w.db.write_utxo_state(w.db.utxo_db)
         w.close()
-        # the compaction tool's loop (electrumx_compact_history)
-        w.open(compacting=True)
-        hist = w.db.history
-        hist.max_hist_row_entries = rowlen
-        assert not hist.unflushed
-        if hist.comp_cursor == -1:
-            hist.comp_cursor = 0
-            hist.comp_flush_count = max(hist.comp_flush_count, 1)
+        # the compaction tool itself (electrumx_compact_history.compact_history), killed where the mode says
         limit = 8 * 1000 * 1000 if mode == 'one-go' else rnd.choice([1, 30, 200])
-        batches = 0
-        completed = False
-        while hist.comp_cursor != -1:
-            hist._compact_history(limit)
-            batches += 1
-            if mode in ('killed-between-batches', 'abandoned-then-index') and batches == rnd.randrange(1, 40):
-                break
-        else:
-            completed = True
-            if mode != 'killed-before-set-flush-count':
-                w.db.set_flush_count(hist.flush_count)
+        kill_after = rnd.randrange(1, 40) if mode in ('killed-between-batches', 'abandoned-then-index') else None
+        batches, completed = run_compaction_tool(w, rowlen, limit, kill_after=kill_after,
+                                                 kill_before_set_flush_count=(mode == 'killed-before-set-flush-count'))
+        if mode == 'killed-before-set-flush-count':
+            completed = True          # every batch ran; only the final set_flush_count did not
         desc['batches'] = batches
         desc['completed'] = completed
         if mode == 'abandoned-then-index' and not completed:
             # the statement restricts this clause to databases where no script hash ends up with more compacted
             # rows than the flush count
+            w.open(compacting=True)
             rows = {}
-            for k, _v in hist.db.iterator(prefix=b''):
+            for k, _v in w.db.history.db.iterator(prefix=b''):
                 if len(k) == HASHX_LEN + 2:
                     rows[k[:-2]] = max(rows.get(k[:-2], 0), struct.unpack('>H', k[-2:])[0])
-            if rows and max(rows.values()) > w.db.state.flush_count:
+            too_many = bool(rows) and max(rows.values()) > w.db.state.flush_count
+            w.close()
+            if too_many:
                 desc['skipped'] = 'outside the stated restriction (more compacted rows than the flush count)'
                 return desc, None
-        w.close()
         if mode == 'killed-between-batches' and not completed:
             # resume with the tool
-            w.open(compacting=True)
-            hist = w.db.history
-            hist.max_hist_row_entries = rowlen
-            while hist.comp_cursor != -1:
-                hist._compact_history(limit)
-            w.db.set_flush_count(hist.flush_count)
-            w.close()
+            run_compaction_tool(w, rowlen, limit)
         w.open()
         w.db.history.max_hist_row_entries = rowlen
         bad = w.compare(blocks[:-2], f'server started after compaction ({mode}): ')
@@ -887,22 +931,16 @@ def scenario_compaction_twice(seed):
     w = World()
 
     def compact(limit):
-        w.open(compacting=True)
-        hist = w.db.history
-        hist.max_hist_row_entries = rowlen
-        if hist.comp_cursor == -1:
-            hist.comp_cursor = 0
-            hist.comp_flush_count = max(hist.comp_flush_count, 1)
-        while hist.comp_cursor != -1:
-            hist._compact_history(limit)
-        w.db.set_flush_count(hist.flush_count)
-        w.close()
+        run_compaction_tool(w, rowlen, limit)
 
     try:
         w.open()
         w.daemon.h = len(blocks) - 1
         index_forward(w, blocks[:a], rnd, sched=[rnd.choice([0.3, 0.9]) for _ in blocks])
+        w.bp.state.first_sync = False
         w.flush(True)
+        w.db.state.first_sync = False
+        w.db.write_utxo_state(w.db.utxo_db)
         w.close()
         compact(rnd.choice([8_000_000, 200]))
         w.open()
